@@ -1417,6 +1417,9 @@ pub struct CrlSpec {
     pub number: Option<Vec<u8>>,
     pub extra_exts: Vec<Ext>,
     pub alg_null: bool,
+    /// crlEntryExtensions: 0 none, 1 a reasonCode on every entry, 2 on every other entry,
+    /// 3 a reasonCode and an invalidityDate on every entry
+    pub entry_ext: u8,
 }
 
 impl CrlSpec {
@@ -1431,8 +1434,25 @@ impl CrlSpec {
             time_varied(self.next_update),
         ];
         if !self.revoked.is_empty() {
-            let r: Vec<Vec<u8>> =
-                self.revoked.iter().map(|(s, t)| seq(&[int_unsigned(s), time_varied(*t)])).collect();
+            let reason = |code: u8| Ext { oid: vec![0x55, 0x1D, 0x15], critical: false, value: tlv(0x0A, &[code]) }.encode();
+            let r: Vec<Vec<u8>> = self
+                .revoked
+                .iter()
+                .enumerate()
+                .map(|(i, (s, t))| {
+                    let mut items = vec![int_unsigned(s), time_varied(*t)];
+                    match self.entry_ext {
+                        1 => items.push(seq(&[reason(1 + (i % 6) as u8)])),
+                        2 if i % 2 == 0 => items.push(seq(&[reason(4)])),
+                        3 => items.push(seq(&[
+                            reason(1),
+                            Ext { oid: vec![0x55, 0x1D, 0x18], critical: false, value: gen_time(*t) }.encode(),
+                        ])),
+                        _ => {}
+                    }
+                    seq(&items)
+                })
+                .collect();
             items.push(seq(&r));
         }
         let mut exts = Vec::new();
